@@ -614,7 +614,7 @@ func recordBoundToUser(c *km.Ctx, s *km.Sem, at ssa.Instruction, rec ssa.Value, 
 					}
 				}
 			}
-			if (b == rec || base == rec || base == km.Unwrap(rec) || cellOrigin(base) == cellOrigin(rec)) && (isAuthUser(pair[1]) || isAuthUser(resolve(pair[1]))) {
+			if (b == rec || base == rec || base == km.Unwrap(rec) || cellOrigin(base) == cellOrigin(rec) || cellIsResultOf(rec, km.Unwrap(b))) && (isAuthUser(pair[1]) || isAuthUser(resolve(pair[1]))) {
 				return true
 			}
 		}
